@@ -17,6 +17,11 @@ REQUIRED_BRANCHES = [
     "equiv-snapshot", "equiv-snapshot of an older content", "direct-snapshot",
     "read at a gate", "held reader re-read", "past root re-read", "read: root built by introduceMerge", "read: root built by introducePersist",
     "segment-dropped",
+    # a batch PREPARED before a merge was introduced and INTRODUCED after it, naming a live document of the merged segment
+    # (counted by the driver only when the recorded epochs show that order): only introduceSegment's `!ok` fallback covers it
+    "window:prepared-before-merge-introduced-after",
+    "window:prepared-before-file-merge-introduced-after",
+    "window:prepared-before-mem-merge-introduced-after",
     # every gate of every phase was the place of at least one reader view (distribution keys of the harness)
     "read-at: at=mm:planned", "read-at: at=mm:written", "read-at: at=mm:loaded", "read-at: at=mm:introduced", "read-at: at=mm:snapwritten",
     "read-at: at=fm:planned", "read-at: at=fm:written", "read-at: at=fm:loaded", "read-at: at=fm:introstart", "read-at: at=fm:introduced",
